@@ -155,6 +155,9 @@ func runC12(p *Prog, r *Report) {
 	if want("C12.5") {
 		ruleDamageReported(p, r, "C12.5")
 	}
+	if want("C12.9") {
+		ruleResetEqualsNew(p, r, "C12.9")
+	}
 	if want("C12.8") {
 		r.Begin("C12.8", "E-GUARD", "the journal reader never crashes on damage: the optional Dropper (documented as possibly nil) is invoked only under a nil test, unless EVERY initialiser of Reader.dropper (NewReader and Reset alike) normalises nil to a non-nil value", 1)
 		tRd := "leveldb/journal.Reader"
